@@ -7,13 +7,15 @@ namespace PySMT.Manager
 
 /-- `b` (a node of `tgt`) is a faithful copy of `a` (a node of `src`) -/
 structure Copy (src tgt : Mgr) (a b : Nid) : Prop where
+  spos : 0 < a
+  slt : a < src.nextId
   pos : 0 < b
   lt : b < tgt.nextId
   eq : tgt.struct b = src.struct a
 
 theorem Copy.mono {src tgt tgt' : Mgr} (ht : Inv tgt) (ht' : Inv tgt') (he : Ext tgt tgt') {a b : Nid}
     (h : Copy src tgt a b) : Copy src tgt' a b :=
-  ⟨h.pos, Nat.lt_of_lt_of_le h.lt he.next,
+  ⟨h.spos, h.slt, h.pos, Nat.lt_of_lt_of_le h.lt he.next,
    by rw [struct_stable ht ht' he (b + 1) b (by omega) h.pos h.lt, h.eq]⟩
 
 /-- every node created between `tgt` and `tgt'` is the copy of some node of `src` -/
@@ -32,9 +34,11 @@ theorem NewCopies.trans {src t0 t1 t2 : Mgr} (h1i : Inv t1) (h2i : Inv t2) (e12 
   · exact h12 b (by omega) hb2
 
 /-- What one `walk_*` callback must achieve for the source node `(c, i)`, given faithful
-    copies `g a` of its children. -/
-def RecSpec (src : Mgr) (addr : Nid → Nat) (c : Content) (i : Nid) : Prop :=
-  (c, i) ∈ src.formulae → ∀ (tgt : Mgr) (g : Nid → Nid), Inv tgt → (∀ a ∈ c.args, Copy src tgt a (g a)) →
+    copies `g a` of its children.  `same = true` is the rebuild inside the source manager
+    itself (the target then extends the source). -/
+def RecSpec (src : Mgr) (addr : Nid → Nat) (same : Bool) (c : Content) (i : Nid) : Prop :=
+  (c, i) ∈ src.formulae → ∀ (tgt : Mgr) (g : Nid → Nid), Inv tgt → (same = true → Ext src tgt) →
+    (∀ a ∈ c.args, Copy src tgt a (g a)) →
     ∀ r tgt', (reconstruct src addr c (c.args.map g)).run tgt = (r, tgt') →
       Inv tgt' ∧ Ext tgt tgt' ∧ NewCopies src tgt tgt' ∧ ∀ j, r = .ok j → Copy src tgt' i j
 
@@ -56,25 +60,25 @@ structure WalkOK (src tgt tgt' : Mgr) (memo : Memo) (r : Except Err Memo) (cover
     MemoOK src tgt' memo' ∧ (∀ a b, assoc a memo = some b → assoc a memo' = some b) ∧
     (∀ a ∈ covered, (assoc a memo').isSome)
 
-theorem foldMemo_spec {src : Mgr} (f : Nid → Memo → Prog Memo)
+theorem foldMemo_spec {src : Mgr} (same : Bool) (f : Nid → Memo → Prog Memo)
     (l : List Nid)
-    (hf : ∀ a ∈ l, ∀ (tgt : Mgr) (memo : Memo), Inv tgt → MemoOK src tgt memo →
+    (hf : ∀ a ∈ l, ∀ (tgt : Mgr) (memo : Memo), Inv tgt → (same = true → Ext src tgt) → MemoOK src tgt memo →
       ∀ r tgt', (f a memo).run tgt = (r, tgt') → WalkOK src tgt tgt' memo r [a]) :
-    ∀ (tgt : Mgr) (memo : Memo), Inv tgt → MemoOK src tgt memo →
+    ∀ (tgt : Mgr) (memo : Memo), Inv tgt → (same = true → Ext src tgt) → MemoOK src tgt memo →
       ∀ r tgt', (foldMemo f l memo).run tgt = (r, tgt') → WalkOK src tgt tgt' memo r l := by
   induction l with
   | nil =>
-    intro tgt memo ht hm r tgt' hrun
+    intro tgt memo ht _ hm r tgt' hrun
     simp only [foldMemo, pure, Prog.run, Prod.mk.injEq] at hrun
     obtain ⟨rfl, rfl⟩ := hrun
     exact ⟨ht, Ext.refl _, NewCopies.refl _ _, fun memo' h => by cases h; exact ⟨hm, fun _ _ h => h, by simp⟩⟩
   | cons a t ih =>
-    intro tgt memo ht hm r tgt' hrun
+    intro tgt memo ht hsame hm r tgt' hrun
     simp only [foldMemo, bind] at hrun
     rw [Prog.run_bind] at hrun
     cases h1 : (f a memo).run tgt with
     | mk r1 t1 =>
-      have w1 := hf a (by simp) tgt memo ht hm r1 t1 h1
+      have w1 := hf a (by simp) tgt memo ht hsame hm r1 t1 h1
       rw [h1] at hrun
       cases r1 with
       | error e =>
@@ -84,7 +88,7 @@ theorem foldMemo_spec {src : Mgr} (f : Nid → Memo → Prog Memo)
       | ok m1 =>
         simp only at hrun
         obtain ⟨hm1, hsub1, hcov1⟩ := w1.ok m1 rfl
-        have w2 := ih (fun x hx => hf x (List.mem_cons_of_mem _ hx)) t1 m1 w1.inv hm1 r tgt' hrun
+        have w2 := ih (fun x hx => hf x (List.mem_cons_of_mem _ hx)) t1 m1 w1.inv (fun h => (hsame h).trans w1.ext) hm1 r tgt' hrun
         have hpos : 0 < tgt.nextId := Nat.zero_lt_of_lt (ht.range _ _ ht.tt).2
         refine ⟨w2.inv, w1.ext.trans w2.ext, NewCopies.trans w1.inv w2.inv w2.ext w1.new w2.new hpos, ?_⟩
         intro memo' hr
@@ -98,16 +102,16 @@ theorem foldMemo_spec {src : Mgr} (f : Nid → Memo → Prog Memo)
         · exact hcov2 x hx
 
 /-- **The traversal returns faithful copies** provided every callback does (`RecSpec`). -/
-theorem normAux_spec {src : Mgr} (hsrc : Inv src) (addr : Nid → Nat) (bound : Nid)
-    (hrec : ∀ c k, (c, k) ∈ src.formulae → k ≤ bound → RecSpec src addr c k) :
+theorem normAux_spec {src : Mgr} (hsrc : Inv src) (addr : Nid → Nat) (same : Bool) (bound : Nid)
+    (hrec : ∀ c k, (c, k) ∈ src.formulae → k ≤ bound → RecSpec src addr same c k) :
     ∀ (fuel : Nat) (i : Nid), i < fuel → 0 < i → i < src.nextId → i ≤ bound →
-      ∀ (tgt : Mgr) (memo : Memo), Inv tgt → MemoOK src tgt memo →
+      ∀ (tgt : Mgr) (memo : Memo), Inv tgt → (same = true → Ext src tgt) → MemoOK src tgt memo →
         ∀ r tgt', (normAux src addr fuel i memo).run tgt = (r, tgt') → WalkOK src tgt tgt' memo r [i] := by
   intro fuel
   induction fuel with
   | zero => intro i h; omega
   | succ fuel ih =>
-    intro i hfuel i0 i1 hb tgt memo ht hm r tgt' hrun
+    intro i hfuel i0 i1 hb tgt memo ht hsame hm r tgt' hrun
     simp only [normAux] at hrun
     split at hrun
     next b hb' =>
@@ -121,7 +125,8 @@ theorem normAux_spec {src : Mgr} (hsrc : Inv src) (addr : Nid → Nat) (bound : 
       simp only [bind] at hrun
       rw [Prog.run_bind] at hrun
       -- children
-      have hkids : ∀ a ∈ c.args.reverse, ∀ (tgt : Mgr) (memo : Memo), Inv tgt → MemoOK src tgt memo →
+      have hkids : ∀ a ∈ c.args.reverse, ∀ (tgt : Mgr) (memo : Memo), Inv tgt → (same = true → Ext src tgt) →
+          MemoOK src tgt memo →
           ∀ r tgt', (normAux src addr fuel a memo).run tgt = (r, tgt') → WalkOK src tgt tgt' memo r [a] := by
         intro a ha
         have ha' : a ∈ c.ids := by simp [Content.ids]; left; simpa using ha
@@ -129,7 +134,7 @@ theorem normAux_spec {src : Mgr} (hsrc : Inv src) (addr : Nid → Nat) (bound : 
         exact ih a (by omega) hcl.1 (by omega) (by omega)
       cases h1 : (foldMemo (normAux src addr fuel) c.args.reverse memo).run tgt with
       | mk r1 t1 =>
-        have w1 := foldMemo_spec (normAux src addr fuel) c.args.reverse hkids tgt memo ht hm r1 t1 h1
+        have w1 := foldMemo_spec same (normAux src addr fuel) c.args.reverse hkids tgt memo ht hsame hm r1 t1 h1
         rw [h1] at hrun
         cases r1 with
         | error e =>
@@ -147,7 +152,7 @@ theorem normAux_spec {src : Mgr} (hsrc : Inv src) (addr : Nid → Nat) (bound : 
               have := hcov1 a (by simpa using ha)
               obtain ⟨y, hy⟩ := Option.isSome_iff_exists.mp this
               rw [hy]; exact hm1 a y hy
-            have w2 := hrec c i hc hb hc t1 _ w1.inv hcopies r2 t2 h2
+            have w2 := hrec c i hc hb hc t1 _ w1.inv (fun h => (hsame h).trans w1.ext) hcopies r2 t2 h2
             obtain ⟨hi2, he2, hn2, hcp2⟩ := w2
             rw [h2] at hrun
             have hpos : 0 < tgt.nextId := Nat.zero_lt_of_lt (ht.range _ _ ht.tt).2
@@ -180,16 +185,16 @@ theorem normAux_spec {src : Mgr} (hsrc : Inv src) (addr : Nid → Nat) (bound : 
 
 /-- `normalize` returns a faithful copy and creates nothing but copies — if every callback on
     the nodes up to `i` meets its specification. -/
-theorem normalize_spec {src : Mgr} (hsrc : Inv src) (addr : Nid → Nat) {i : Nid} (i0 : 0 < i) (i1 : i < src.nextId)
-    (hrec : ∀ c k, (c, k) ∈ src.formulae → k ≤ i → RecSpec src addr c k)
-    {tgt : Mgr} (ht : Inv tgt) {r : Except Err Nid} {tgt' : Mgr}
+theorem normalize_spec {src : Mgr} (hsrc : Inv src) (addr : Nid → Nat) (same : Bool) {i : Nid} (i0 : 0 < i)
+    (i1 : i < src.nextId) (hrec : ∀ c k, (c, k) ∈ src.formulae → k ≤ i → RecSpec src addr same c k)
+    {tgt : Mgr} (ht : Inv tgt) (hsame : same = true → Ext src tgt) {r : Except Err Nid} {tgt' : Mgr}
     (hrun : (normalize src addr i).run tgt = (r, tgt')) :
     Inv tgt' ∧ Ext tgt tgt' ∧ NewCopies src tgt tgt' ∧ ∀ j, r = .ok j → Copy src tgt' i j := by
   simp only [normalize, bind] at hrun
   rw [Prog.run_bind] at hrun
   cases h1 : (normAux src addr (i + 1) i []).run tgt with
   | mk r1 t1 =>
-    have w := normAux_spec hsrc addr i hrec (i + 1) i (by omega) i0 i1 (Nat.le_refl _) tgt [] ht
+    have w := normAux_spec hsrc addr same i hrec (i + 1) i (by omega) i0 i1 (Nat.le_refl _) tgt [] ht hsame
       (fun a b h => by simp [assoc] at h) r1 t1 h1
     rw [h1] at hrun
     cases r1 with
@@ -212,10 +217,10 @@ theorem normalize_spec {src : Mgr} (hsrc : Inv src) (addr : Nid → Nat) {i : Ni
 
 /-- In the same manager the rebuild creates no node and returns the very same node. -/
 theorem rebuild_same {s : Mgr} (hs : Inv s) (addr : Nid → Nat) {i : Nid} (i0 : 0 < i) (i1 : i < s.nextId)
-    (hrec : ∀ c k, (c, k) ∈ s.formulae → k ≤ i → RecSpec s addr c k)
+    (hrec : ∀ c k, (c, k) ∈ s.formulae → k ≤ i → RecSpec s addr true c k)
     {r : Except Err Nid} {s' : Mgr} (hrun : (normalize s addr i).run s = (r, s')) :
     s'.nextId = s.nextId ∧ ∀ j, r = .ok j → j = i := by
-  obtain ⟨hi', he, hn, hc⟩ := normalize_spec hs addr i0 i1 hrec hs hrun
+  obtain ⟨hi', he, hn, hc⟩ := normalize_spec hs addr true i0 i1 hrec hs (fun _ => Ext.refl s) hrun
   constructor
   · apply Nat.le_antisymm _ he.next
     apply Nat.le_of_not_lt
